@@ -430,6 +430,30 @@ fn contract_case(t0: &mut Tape, w: &Worker) -> CaseResult {
     Ok(out)
 }
 
+/// hand-built reproduction of the repaired defect F8: only a fatal framing error is reported, -E n must be returned
+fn regress_case(i: u64, w: &Worker) -> CaseResult {
+    let mut bytes = vec![];
+    for k in 0..3u16 {
+        let mut r = Rdh { pages_counter: k, stop_bit: (k == 2) as u8, ..Rdh::default() };
+        r.set_sizes(0);
+        if k == 1 {
+            r.offset_next = 20_000; // framing error in mid-stream
+        }
+        bytes.extend_from_slice(&r.encode());
+    }
+    let mut case = CliCase::new(w, bytes.clone());
+    let (spec, o) = case.run(vec!["check".into(), "sanity".into(), "-E".into(), "9".into()], i % 2 == 1);
+    if o.code != Some(9) {
+        return Err(Fail::new("C16:exit-status:fatal-only:got0", format!("exit status {:?}, a fatal input error was reported and -E 9 is set", o.code), json!({"cmd": spec.describe(), "out": o.brief(), "input": input_detail(&bytes)})));
+    }
+    let mut out = CaseOut::default();
+    out.nontrivial = true;
+    out.fingerprint = 0xF8 + i;
+    out.execs = 1;
+    out.labels.push("regress:F8".into());
+    Ok(out)
+}
+
 pub fn build() -> Property {
     Property {
         id: "C16",
@@ -443,6 +467,7 @@ pub fn build() -> Property {
             "exit-status oracle relates observables of the same run (reported <=> exit n); classes clean / wrong custom check are known by construction".into(),
         ],
         phases: vec![
+            Phase { name: "regress_fixed", kind: PhaseKind::Enum { n: (2, 2), exhaustive: (false, false), f: Box::new(regress_case) }, threads: 2 },
             Phase {
                 name: "invalid_combos",
                 kind: PhaseKind::Enum { n: (14, 14), exhaustive: (true, true), f: Box::new(invalid_combo_case) },
